@@ -8,6 +8,7 @@ package main
 
 import (
 	"fmt"
+	"os"
 	"strings"
 
 	"github.com/zclconf/go-cty/cty"
@@ -170,81 +171,11 @@ func init() {
 	}, selAny)
 	// a result of one library function handed to the next, twice, with different companions: results share
 	// internals with their arguments (a slice of a tuple type, a type grown by concatenation), and the second
-	// use must not disturb the first result, the intermediate value or the pool values they came from
-	defOp("StdlibChain", "", func(t *taskState, a [3]cty.Value, p [3]int) opRes {
-		sp := typedSpecs[p[0]%len(typedSpecs)]
-		args := make([]cty.Value, len(sp.args))
-		for i := range args {
-			args[i] = typedArg(t, sp.args[i], p[1]+i*(p[2]|1))
-		}
-		r1, err := sp.f.Call(args)
-		if err != nil {
-			return opRes{s: sp.name + ":" + errClass(err)}
-		}
-		ur1, _ := r1.Unmark()
-		accepts := "a"
-		switch ty := ur1.Type(); {
-		case ty == cty.String:
-			accepts += "s"
-		case ty == cty.Number:
-			accepts += "n"
-		case ty == cty.Bool:
-			accepts += "b"
-		case ty.IsListType():
-			accepts += "lq"
-		case ty.IsMapType():
-			accepts += "m"
-		case ty.IsSetType():
-			accepts += "eq"
-		case ty.IsTupleType():
-			accepts += "tq"
-		case ty.IsObjectType():
-			accepts += "o"
-		}
-		type slot struct{ spec, pos int }
-		var slots []slot
-		for si, s2 := range typedSpecs {
-			for pos := 0; pos < len(s2.args); pos++ {
-				if strings.IndexByte(accepts, s2.args[pos]) >= 0 && (s2.args[pos] != 'a' || (si+pos)%4 == 0) {
-					slots = append(slots, slot{si, pos})
-				}
-			}
-		}
-		sl := slots[(p[1]/7)%len(slots)]
-		sp2 := typedSpecs[sl.spec]
-		res := opRes{vals: []cty.Value{r1}, s: sp.name + ">" + sp2.name}
-		mid := r1
-		if p[2]%4 == 1 {
-			// what is known about the intermediate result is only its type (which it shares with the value)
-			mid = cty.UnknownVal(ur1.Type())
-		}
-		fpMid := fp(r1)
-		var firstFP string
-		for branch := 0; branch < 2; branch++ {
-			args2 := make([]cty.Value, len(sp2.args))
-			for i := range args2 {
-				args2[i] = typedArg(t, sp2.args[i], p[2]/4+branch*5+i*(p[1]|1))
-			}
-			args2[sl.pos] = mid
-			r2, err := sp2.f.Call(args2)
-			if err != nil {
-				res.s += ":" + errClass(err)
-				continue
-			}
-			res.vals = append(res.vals, r2)
-			if branch == 0 {
-				firstFP = fp(r2)
-			} else if firstFP != "" && res.viol == "" {
-				if now := fp(res.vals[1]); now != firstFP {
-					res.viol = fmt.Sprintf("the result of %s(%s result, ...) changed when %s was called again with the same intermediate value and other companions\nbefore: %s\nafter:  %s", sp2.name, sp.name, sp2.name, clip(firstFP), clip(now))
-				}
-			}
-		}
-		if now := fp(r1); now != fpMid && res.viol == "" {
-			res.viol = fmt.Sprintf("the result of %s changed when it was handed to %s\nbefore: %s\nafter:  %s", sp.name, sp2.name, clip(fpMid), clip(now))
-		}
-		return res
-	}, selAny)
+	// use must not disturb the first result, the intermediate value or the pool values they came from.
+	// (Registered three times: chains are where this library's functions meet each other's results.)
+	for _, name := range []string{"StdlibChain", "StdlibChainB", "StdlibChainC"} {
+		defOp(name, "", stdlibChain, selAny)
+	}
 	// the objects derived from a shared Function: a re-described copy, its proxy, its unpredictable twin; the
 	// shared original must describe itself as before afterwards
 	defOp("FunctionWrappers", "", func(t *taskState, a [3]cty.Value, p [3]int) opRes {
@@ -288,4 +219,140 @@ func init() {
 		}
 		return opRes{vals: []cty.Value{r}, s: sp.name + ":" + how + ":" + own + ":" + g.Description()}
 	}, selAny)
+}
+
+// structuralSpecs: rows of the call table whose arguments include a sequence or a mapping - the functions whose
+// result types are computed from argument types.
+var structuralSpecs = func() (out []int) {
+	for i, sp := range typedSpecs {
+		if strings.ContainsAny(sp.args, "ltqemo") {
+			out = append(out, i)
+		}
+	}
+	return
+}()
+
+var debugChain = os.Getenv("VERIF_DEBUG_CHAIN") != ""
+
+func stdlibChain(t *taskState, a [3]cty.Value, p [3]int) opRes {
+	// first call: up to four rows are tried for a result with a structural type (tuple, object: types that
+	// have internals of their own); what is known about a pool argument is sometimes only its type
+	var sp typedSpec
+	var r1 cty.Value
+	var err error
+	for try := 0; try < 4; try++ {
+		q := mixInt(p[0], try)
+		if q%3 != 0 {
+			sp = typedSpecs[structuralSpecs[(q/3)%len(structuralSpecs)]]
+		} else {
+			sp = typedSpecs[(q/3)%len(typedSpecs)]
+		}
+		args := make([]cty.Value, len(sp.args))
+		for i := range args {
+			args[i] = typedArg(t, sp.args[i], p[1]+try+i*(p[2]|1))
+			if sp.args[i] >= 'a' && sp.args[i] <= 'z' && (p[1]/3+i+try)%4 == 0 {
+				if u, _ := args[i].Unmark(); u.Type() != cty.DynamicPseudoType {
+					args[i] = cty.UnknownVal(u.Type())
+				}
+			}
+		}
+		r1, err = sp.f.Call(args)
+		if err == nil {
+			if ty := r1.Type(); ty.IsTupleType() || ty.IsObjectType() {
+				break
+			}
+		}
+	}
+	if err != nil {
+		return opRes{s: sp.name + ":" + errClass(err)}
+	}
+	ur1, _ := r1.Unmark()
+	accepts := "a"
+	switch ty := ur1.Type(); {
+	case ty == cty.String:
+		accepts += "s"
+	case ty == cty.Number:
+		accepts += "n"
+	case ty == cty.Bool:
+		accepts += "b"
+	case ty.IsListType():
+		accepts += "lq"
+	case ty.IsMapType():
+		accepts += "m"
+	case ty.IsSetType():
+		accepts += "eq"
+	case ty.IsTupleType():
+		accepts += "tq"
+	case ty.IsObjectType():
+		accepts += "o"
+	}
+	type slot struct{ spec, pos int }
+	var slots []slot
+	for si, s2 := range typedSpecs {
+		for pos := 0; pos < len(s2.args); pos++ {
+			if strings.IndexByte(accepts, s2.args[pos]) >= 0 && (s2.args[pos] != 'a' || (si+pos)%8 == 0) {
+				slots = append(slots, slot{si, pos})
+			}
+		}
+	}
+	res := opRes{vals: []cty.Value{r1}, s: sp.name, violClass: "mutated-by-call"}
+	fpMid := fp(r1)
+	mid := r1
+	if p[2]%4 == 1 {
+		// what is known about the intermediate result is only its type (which it shares with the value)
+		mid = cty.UnknownVal(ur1.Type())
+	}
+	// second call: two rows, each twice with other companions
+	for round := 0; round < 2; round++ {
+		sl := slots[mixInt(p[1], round)%len(slots)]
+		if round == 0 {
+			// the same function again, where its own result fits (concatenating a concatenation, merging a merge)
+			for _, cand := range slots {
+				if typedSpecs[cand.spec].name == sp.name {
+					sl = cand
+					break
+				}
+			}
+		}
+		sp2 := typedSpecs[sl.spec]
+		res.s += ">" + sp2.name
+		var first cty.Value
+		var firstFP string
+		for branch := 0; branch < 2; branch++ {
+			args2 := make([]cty.Value, len(sp2.args))
+			for i := range args2 {
+				args2[i] = typedArg(t, sp2.args[i], p[2]/4+branch*5+round+i*(p[1]|1))
+			}
+			args2[sl.pos] = mid
+			r2, err := sp2.f.Call(args2)
+			if err != nil {
+				res.s += ":" + errClass(err)
+				continue
+			}
+			res.vals = append(res.vals, r2)
+			if firstFP == "" {
+				first, firstFP = r2, fp(r2)
+			} else if res.viol == "" {
+				if now := fp(first); now != firstFP {
+					res.viol = fmt.Sprintf("the result of %s(%s result, ...) changed when %s was called again with the same intermediate value and other companions\nbefore: %s\nafter:  %s", sp2.name, sp.name, sp2.name, clip(firstFP), clip(now))
+				}
+			}
+		}
+	}
+	if debugChain {
+		fmt.Fprintf(os.Stderr, "CHAIN %s known=%t type=%s\n", res.s, ur1.IsKnown(), ur1.Type().FriendlyName())
+	}
+	if now := fp(r1); now != fpMid && res.viol == "" {
+		res.viol = fmt.Sprintf("the result of %s changed when it was handed on (%s)\nbefore: %s\nafter:  %s", sp.name, res.s, clip(fpMid), clip(now))
+	}
+	return res
+}
+
+// mixInt spreads two small integers over the non-negative ints (a fixed multiplicative hash; no state).
+func mixInt(a, b int) int {
+	x := uint64(a)*0x9E3779B97F4A7C15 + uint64(b)*0xBF58476D1CE4E5B9
+	x ^= x >> 31
+	x *= 0x94D049BB133111EB
+	x ^= x >> 29
+	return int(x >> 2 & 0x3fffffff)
 }
